@@ -42,8 +42,12 @@ TIERS = {
                 TwoHoles=False)),
             # two partial applications of function items made by one function expression
             ('partials', dict(
-                Templates={"for2"}, MaxN=2, MaxEvents=4, MaxMakers=2, PartialIn={"for2"}, RefIn={"none"},
-                TwoHoles=False)),
+                Templates={"for2"}, MaxN=2, MaxEvents=3, MaxMakers=2, PartialIn={"for2"}, RefIn={"none"},
+                TwoHoles=True)),
+            # a named reference, a partial application of it (one or two placeholders), calls
+            ('refs', dict(
+                Templates={"for0"}, MaxN=1, MaxEvents=3, MaxMakers=2, PartialIn={"for0"}, RefIn={"for0"},
+                TwoHoles=True)),
         ],
         hof=[('d2', dict(MaxDepth=2, MaxLen=3, UniverseName='u4', Big=True))],
     ),
@@ -55,12 +59,12 @@ TIERS = {
                 MaxN=3, MaxEvents=4, MaxMakers=1, PartialIn={"for1"}, RefIn={"for0"}, TwoHoles=False)),
             ('makers', dict(
                 Templates={"for2", "ref1", "for1"},
-                MaxN=3, MaxEvents=4, MaxMakers=2, PartialIn={"for2", "ref1", "for1"}, RefIn={"for1", "ref1"},
+                MaxN=2, MaxEvents=4, MaxMakers=2, PartialIn={"for2", "ref1", "for1"}, RefIn={"for1", "ref1"},
                 TwoHoles=True)),
             # a named reference, two partial applications of it, one call
             ('refs', dict(
                 Templates={"for0"}, MaxN=1, MaxEvents=4, MaxMakers=3, PartialIn={"for0"}, RefIn={"for0"},
-                TwoHoles=False)),
+                TwoHoles=True)),
         ],
         hof=[('d3', dict(MaxDepth=3, MaxLen=3, UniverseName='u4', Big=True))],
     ),
@@ -164,7 +168,9 @@ def project_item(x):
     if isinstance(x, int):
         return ('i', int(x))
     if isinstance(x, float):
-        return ('d', int(x)) if x == int(x) else ('other', repr(x))
+        if x != x or x in (float('inf'), float('-inf')) or x != int(x):
+            return ('other', repr(x))
+        return ('d', int(x))
     if isinstance(x, str):
         return ('s', str(x))
     if isinstance(x, XPathFunction):
@@ -410,20 +416,46 @@ def load_table(output: str, tag: str = 'templates') -> dict:
     return vals[0]
 
 
-def run_closures(chk: core.Check, name: str, consts: dict) -> None:
+def start_tlc(chk: core.Check, tier: dict, parts) -> dict:
+    """All TLC runs of the tier are independent: start them together (threads around subprocesses,
+    4 TLC workers each), collect by name."""
+    from concurrent.futures import ThreadPoolExecutor
+    jobs = {}
+    if 'closures' in parts:
+        for name, consts in tier['closures']:
+            wd = os.path.join(chk.scratch, 'closures-' + name)
+            jobs[('closures', name, 'laws')] = ('Closures', tla.cfg_text(consts, invariants=['Laws']), wd,
+                                                os.path.join(wd, 'g.dot'))
+            jobs[('closures', name, 'asimpl')] = ('Closures', tla.cfg_text(consts, invariants=['AsImplementedAgrees']),
+                                                  os.path.join(wd, 'asimpl'), None)
+    if 'hof' in parts:
+        for name, consts in tier['hof']:
+            wd = os.path.join(chk.scratch, 'hof-' + name)
+            jobs[('hof', name, 'laws')] = ('HOF', tla.cfg_text(consts, invariants=['Laws']), wd, os.path.join(wd, 'g.dot'))
+
+    def one(item):
+        key, (module, cfg, wd, dot) = item
+        return key, tla.run_tlc(module, cfg, wd, dump_dot=dot, workers=4)
+    with ThreadPoolExecutor(max_workers=4) as ex:
+        return dict(ex.map(one, jobs.items()))
+
+
+def run_closures(chk: core.Check, name: str, consts: dict, tlc: dict) -> None:
     wd = os.path.join(chk.scratch, 'closures-' + name)
     dot = os.path.join(wd, 'g.dot')
-    cfg = tla.cfg_text(consts, invariants=['Laws'])
-    r = tla.require_ok(tla.run_tlc('Closures', cfg, wd, dump_dot=dot, workers=8), f'Closures/{name}', min_distinct=100)
+    r = tla.require_ok(tlc[('closures', name, 'laws')], f'Closures/{name}', min_distinct=100)
     chk.model(f'Closures/{name}', r)
     table = load_table(r.output)
     # the implementation-shaped model must be REFUTED by TLC (the sharing defect as an invariant violation)
-    r2 = tla.run_tlc('Closures', tla.cfg_text(consts, invariants=['AsImplementedAgrees']),
-                     os.path.join(wd, 'asimpl'), workers=4)
-    if r2.violated != 'AsImplementedAgrees':
-        raise tla.MachineryError('TLC did not refute Closures!AsImplementedAgrees: the token-sharing model is vacuous')
-    chk.coverage.setdefault('as_implemented_refuted', []).append(
-        {'config': name, 'invariant': 'AsImplementedAgrees', 'states_to_counterexample': r2.distinct})
+    r2 = tlc[('closures', name, 'asimpl')]
+    if r2.violated == 'AsImplementedAgrees':
+        chk.coverage.setdefault('as_implemented_refuted', []).append(
+            {'config': name, 'invariant': 'AsImplementedAgrees', 'states_to_counterexample': r2.distinct})
+    elif r2.ok and not r2.violated:
+        # no sharing is reachable inside these bounds (e.g. one named reference, one partial application)
+        chk.coverage.setdefault('as_implemented_agrees', []).append({'config': name, 'states': r2.distinct})
+    else:
+        tla.require_ok(r2, f'Closures/{name} AsImplementedAgrees')
     g = tla.load_dot(dot)
     os.remove(dot)
     out = g.out()
@@ -590,12 +622,11 @@ def hof_call_text(action, args, src_text, catalog, zeros) -> str:
     return hof_expr(action, args, src_text, None, render(entry['e']) if entry else None, zeros)
 
 
-def run_hof(chk: core.Check, name: str, consts: dict) -> None:
+def run_hof(chk: core.Check, name: str, consts: dict, tlc: dict) -> None:
     from collections import deque
     wd = os.path.join(chk.scratch, 'hof-' + name)
     dot = os.path.join(wd, 'g.dot')
-    r = tla.require_ok(tla.run_tlc('HOF', tla.cfg_text(consts, invariants=['Laws']), wd, dump_dot=dot, workers=8),
-                       f'HOF/{name}', min_distinct=50)
+    r = tla.require_ok(tlc[('hof', name, 'laws')], f'HOF/{name}', min_distinct=50)
     chk.model(f'HOF/{name}', r)
     catalog = load_table(r.output, 'catalog')
     zeros = load_table(r.output, 'zeros')
@@ -694,17 +725,22 @@ def run(chk: core.Check) -> None:
         'values: small integers, integral doubles, strings, booleans; sort keys are single numbers (default collation never consulted)',
     ]
     tier = TIERS[chk.tier]
+    parts = ('closures', 'hof') if DEV_PART == 'all' else (DEV_PART,)
+    tlc = start_tlc(chk, tier, parts)
     if DEV_PART in ('all', 'closures'):
         FIRED.clear()
         for name, consts in tier['closures']:
-            run_closures(chk, name, consts)
+            run_closures(chk, name, consts, tlc)
         for a in ('Create', 'EndScope', 'CallLater', 'Partial', 'NamedRef'):
             if not FIRED.get(a):
                 raise tla.MachineryError(f'Closures: action {a} never fired (vacuous)')
         chk.coverage['closures_actions_fired'] = dict(FIRED)
+        if not chk.coverage.get('as_implemented_refuted'):
+            raise tla.MachineryError('TLC did not refute Closures!AsImplementedAgrees in any configuration: '
+                                     'the token-sharing model is vacuous')
     if DEV_PART in ('all', 'hof'):
         for name, consts in tier['hof']:
-            run_hof(chk, name, consts)
+            run_hof(chk, name, consts, tlc)
     chk.coverage['exhaustive'] = True
     chk.coverage['rule'] = (
         'Closures: every leaf of the TLC forest (template x 1..3 iterations of one function expression x every '
